@@ -162,8 +162,16 @@ func checkRing[T comparable](t *rapid.T, r *ring[T]) {
 	case "Sqr", "Inv", "Frob":
 		alias = kit.DrawAlias2(t)
 	case "IsEqual":
-		if rapid.Bool().Draw(t, "same") {
+		// equal, or different in one Fp coordinate only (possibly by a single internal bit), or independent
+		if rapid.IntRange(0, 3).Draw(t, "rel") != 3 {
 			ye, yc = xe, xc
+			k := r.coords[rapid.IntRange(0, len(r.coords)-1).Draw(t, "relcoord")]
+			nv, nc := fpF.DrawSecond(t, xe[k/2][k%2], xc, "y2")
+			ye[k/2] = fptower.E2{ye[k/2][0], ye[k/2][1]}
+			ye[k/2][k%2] = nv
+			if nc == "internal-neighbour" {
+				yc = nc
+			}
 		}
 	}
 	if alias == kit.AliasXY || alias == kit.AliasAll {
